@@ -1,5 +1,5 @@
 From Coq Require Import List NArith Arith.
-From SK Require Import lib.LGraph lib.Mono model.C11_Model proof.C11_Aut proof.C11_WL proof.C11_Dedup proof.C11_Main proof.C11_Comp proof.C11_VF2 proof.C11_Vocab.
+From SK Require Import lib.LGraph lib.Mono model.C11_Model proof.C11_Aut proof.C11_WL proof.C11_Dedup proof.C11_Main proof.C11_Comp proof.C11_VF2 proof.C11_Vocab proof.C11_Sig.
 Import ListNotations.
 
 (** Vocabulary (definitions in proof/C11_Aut.v, written out here for the reader):
@@ -169,6 +169,40 @@ Theorem C11_dedup_sublist :
     (forall rc, subseq (prune key rc xs) xs).
 Proof. exact dedup_sublist_all. Qed.
 Print Assumptions C11_dedup_sublist.
+
+(** Clause 3, sharpened (round 3): deduplicate_matches_with_anchor keeps exactly the FIRST match of every signature class.
+    [anchor_signature porbs anchor horbs] (proof/C11_Sig.v) is the signature the function computes for one match from its
+    orbit arguments; [dedup_anchor_h] takes the host anchor as a further argument, which does not influence the result
+    (the code accepts and ignores it).  For a duplicate-free input: the output is a subsequence; the same output is
+    obtained without host anchor; without any orbit argument the input is returned; otherwise every match has a signature
+    (else ValueError = None) and x is kept IFF no earlier match has the signature of x. *)
+Theorem C11_dedup_first_of_class :
+  forall (X : Type) (key : X -> mapping) (xs : list X) porbs anchor horbs hanchor out,
+    NoDup xs ->
+    dedup_anchor_h key xs porbs anchor horbs hanchor = Some out ->
+    subseq out xs /\
+    dedup_anchor_h key xs porbs anchor horbs None = Some out /\
+    ((porbs = None /\ horbs = None /\ out = xs) \/
+     ((porbs <> None \/ horbs <> None) /\
+      (forall x, In x xs -> anchor_signature porbs anchor horbs (key x) <> None) /\
+      forall x, In x out <->
+        (In x xs /\ forall l1 l2, xs = l1 ++ x :: l2 -> forall z, In z l1 ->
+                      anchor_signature porbs anchor horbs (key z) <> anchor_signature porbs anchor horbs (key x)))).
+Proof. exact dedup_anchor_first_all. Qed.
+Print Assumptions C11_dedup_first_of_class.
+
+(** PartialMatcher._prune_automorphic_mappings: the empty list is returned as it is, otherwise the function above on the
+    WL-1 orbits of the host (after [k] = wl_max_iter sweeps) with the host anchor; the result is a subsequence. *)
+Theorem C11_partial_prune :
+  forall (X : Type) (key : X -> mapping) (fn : nlab -> N) (h : graph) (k : nat) (xs : list X),
+    partial_prune key fn h k xs =
+      match xs with
+      | [] => Some []
+      | _ => dedup_anchor key xs None [] (Some (wl_orbits (wl fn e_order h k)))
+      end /\
+    forall out, partial_prune key fn h k xs = Some out -> subseq out xs.
+Proof. exact partial_prune_all. Qed.
+Print Assumptions C11_partial_prune.
 
 (** Clause 4 (pruning), first half: every raw match is represented by a kept match — the same list element, the
     same set of (pattern node, host node) items, or its items are those of the kept match with the pattern node
